@@ -184,8 +184,8 @@ def build(read):
 
     b.text = assemble([
         "// GENERATED on every run by /verif/verus/name_bind.py from /repo's working tree - do not edit",
-        parts.HEADER.replace("use std::collections::HashSet;\n", ""), parts.OPAQUE_VALUE,
-        sel, err_text, parts.located_spec(variants), parts.ast_text(b, read),
+        parts.HEADER.replace("use std::collections::HashSet;\n", ""),
+        sel, err_text, parts.located_spec(variants), parts.ast_text(b, read), parts.value_items(b, read), parts.value_model(True),
         MODEL,
         "// ---- verbatim from src/eval/bind.rs", bind_type,
         "impl Clone for BindType { #[verifier::external_body] fn clone(&self) -> (r: Self) ensures r == *self { unimplemented!() } }\nimpl Copy for BindType {}",
